@@ -345,3 +345,290 @@ def plan_c05(tier, seed):
 
 
 PLANS.update({"C02": plan_c02, "C03": plan_c03, "C04": plan_c04, "C05": plan_c05})
+
+
+# ------------------------------------------------------------------------------------------------
+# C06
+def default_patterns(N):
+    top = 1 << (N - 1)
+    alt = int("10" * 64, 2) & mask(N)
+    return [mask(N), alt, 1, top]
+
+
+def c06_layouts(tier, seed):
+    Ls = []
+    bases = NATIVE_BASES + (QUICK_ARB if tier == "quick" else ALL_ARB)
+    for N in bases:
+        pats = default_patterns(N)
+        lowf = Field("f0", ty_for_width(max(1, N // 2)), [(0, max(1, N // 2))], None, "rw")
+        forms = [
+            (None, False, [lowf], "no default, partial cover"),
+            (("lit", pats[0], "hex"), False, [lowf], "hex literal, all ones incl. bits no field covers"),
+            (("const", pats[1]), False, [], "named constant, struct without fields"),
+            (("lit", pats[3], "dec"), True, [lowf], "decimal literal top bit only, legacy `:` syntax"),
+        ]
+        if tier != "quick":
+            forms += [(("lit", pats[2], "dec"), False, [], "literal 1, no fields"),
+                      (("const", pats[0]), True, [lowf], "named constant all ones, legacy syntax"),
+                      (None, False, [], "no default, no fields")]
+        for (d, legacy, fs, tag) in forms:
+            import copy
+            Ls.append(Layout(N, copy.deepcopy(fs), default=d, legacy=legacy, tag=f"u{N}: {tag}"))
+    return Ls
+
+
+C06_PRE = """pub trait VProbeNew: Sized { fn new() -> Option<Self> { None } }
+pub trait VAsOpt<T> { fn vas_opt(self) -> Option<T>; }
+impl<T> VAsOpt<T> for T { fn vas_opt(self) -> Option<T> { Some(self) } }
+impl<T> VAsOpt<T> for Option<T> { fn vas_opt(self) -> Option<T> { self } }
+pub fn vcopy<T: Copy>(t: &T) -> (T, T) { (*t, *t) }
+impl VProbeNew for S {}"""
+
+
+def h_c06(L):
+    from .engine import Harness
+    S = L.name
+    b = H.raw_sym(L)
+    b.append(f"let x = {S}::new_with_raw_value(r);")
+    b.append(f'assert!({H.raw_of(L, "x")} == r128, "VERIF raw round trip");')
+    b.append("let (c1, c2) = vcopy(&x);")
+    b.append(f'assert!({H.raw_of(L, "c1")} == r128 && {H.raw_of(L, "c2")} == r128, "VERIF copy");')
+    b.append(f'assert!({H.raw_of(L, S + "::ZERO")} == 0, "VERIF ZERO");')
+    st = L.storage
+    b.append(f'assert!(core::mem::size_of::<{S}>() == core::mem::size_of::<u{st}>(), "VERIF size_of");')
+    b.append(f'assert!(core::mem::align_of::<{S}>() == core::mem::align_of::<u{st}>(), "VERIF align_of");')
+    funcs = [f"{S}::new_with_raw_value", f"{S}::raw_value", f"{S}::ZERO"]
+    reach = ()
+    if L.default:
+        d = L.default[1]
+        b.append(f'assert!({H.raw_of(L, S + "::DEFAULT")} == {d:#x}u128, "VERIF DEFAULT");')
+        b.append(f'assert!({H.raw_of(L, "<" + S + " as Default>::default()")} == {d:#x}u128, "VERIF Default::default()");')
+        b.append(f"let n: Option<{S}> = {S}::new().vas_opt();")
+        b.append(f'if let Some(n) = n {{ assert!({H.raw_of(L, "n")} == {d:#x}u128, "VERIF new()"); }}')
+        b.append('vcover!(n.is_some(), "VERIF-REACH-new-exists");')
+        funcs += [f"{S}::DEFAULT", f"{S}::default", f"{S}::new"]
+    b.append("vend!();")
+    return Harness("roundtrip", "\n".join(b), "pass", "raw_roundtrip_constants", "C06", "", tuple(funcs), reach=reach)
+
+
+def h_c06_ctl(L):
+    h = h_c06(L)
+    h.name = "ctl_roundtrip"
+    h.body = h.body.replace('== r128, "VERIF raw round trip"', '== (r128 ^ 1), "VERIF raw round trip"')
+    h.expect, h.family = "control", "control"
+    return h
+
+
+def plan_c06(tier, seed):
+    Ls = c06_layouts(tier, seed)
+    us = []
+    for i, L in enumerate(Ls):
+        u = Unit(f"l{i:05d}", L.decl(), [h_c06(L)], {"layout": L, "sig": L.sig(), "tag": L.tag, "valid": True})
+        u.decl = L.decl() + "\n" + C06_PRE
+        us.append(u)
+    for k in (0, len(us) // 2, len(us) - 1):
+        us[k].harnesses.append(h_c06_ctl(us[k].meta["layout"]))
+    return Plan(us, title="raw round trip, constants, layout", chunk=120,
+                bounds={"inputs": "all 2^N raw values per base", "bases": "5 native + %d arbitrary-int widths" % (len(QUICK_ARB) if tier == "quick" else len(ALL_ARB)),
+                        "default forms": "none / hex literal all-ones / named constant / decimal literal, `=` and legacy `:`; with and without fields",
+                        "ground obligations": "size_of/align_of, Copy, ZERO, DEFAULT, Default::default, new() are evaluated, not quantified"},
+                assumptions=COMMON_ASSUME + ["the deprecated new() is probed through an inherent-over-trait fallback: if it were removed the clause is skipped (evidence shows VERIF-REACH-new-exists)"])
+
+
+# ------------------------------------------------------------------------------------------------
+# C07
+def enum_corpus(tier, seed):
+    rnd = random.Random(seed * 65537 + 7)
+    srnd = random.Random(77)
+    Es = []
+
+    def add(bits, discrs, exhaustive="auto", legacy=False, cfg=None, tag=""):
+        discrs = list(discrs)
+        full = len(set(discrs)) == (1 << bits) if bits <= 16 else False
+        if exhaustive == "auto":
+            exhaustive = "true" if full else [None, "false"][len(Es) % 2]
+        vs = [(f"V{i}", d, (cfg[i] if cfg else None)) for i, d in enumerate(discrs)]
+        e = EnumDef("E", bits, vs, exhaustive, legacy)
+        e.tag = tag or f"u{bits} {len(discrs)} variants exhaustive={exhaustive}"
+        Es.append(e)
+
+    # N = 1, 2: every non-empty subset
+    for bits in (1, 2):
+        n = 1 << bits
+        for m in range(1, 1 << n):
+            add(bits, [d for d in range(n) if m >> d & 1], legacy=(m % 3 == 0))
+    # N = 3
+    subs = list(range(1, 256))
+    if tier == "quick":
+        subs = [255, 1, 128, 129, 0x7f, 0xfe] + random.Random(3).sample(subs, 34)
+    for m in subs:
+        add(3, [d for d in range(8) if m >> d & 1])
+    # larger N
+    for bits in (4, 5, 6, 7, 8, 9, 15, 16, 17, 31, 32, 33, 63, 64):
+        top = (1 << bits) - 1
+        add(bits, [0])
+        add(bits, [top])
+        add(bits, [0, top], exhaustive="false")
+        add(bits, [1 << k for k in range(bits)][:64])
+        add(bits, list(range(min(40, top))))
+        k = srnd.randint(2, 64)
+        add(bits, sorted(srnd.sample(range(min(top + 1, 1 << 20)), min(k, top))) + ([top] if bits > 20 else []))
+        if bits <= 8 and (tier != "quick" or bits in (4, 5, 8)):
+            add(bits, list(range(1 << bits)), exhaustive="true")
+        if bits <= 8 and (tier != "quick" or bits in (4, 5)):
+            add(bits, list(range(1, 1 << bits)))  # all but zero
+            add(bits, list(range((1 << bits) - 1)))  # all but top
+        if tier != "quick":
+            for _ in range(4):
+                k = rnd.randint(1, 64)
+                pool = range(top + 1) if bits <= 20 else None
+                ds = sorted(rnd.sample(pool, min(k, top + 1))) if pool else sorted(set(rnd.getrandbits(bits) for _ in range(k)))
+                add(bits, ds)
+    # conditional enums: cfg-gated variants, active set known; may list more than 2^N variants
+    add(2, [0, 1, 2, 3], exhaustive="conditional", cfg=[None, "on", None, "on"], tag="conditional, all active")
+    add(2, [0, 1, 2, 3], exhaustive="conditional", cfg=[None, "off", None, "on"], tag="conditional, one inactive")
+    add(2, [0, 1, 1, 2, 3], exhaustive="conditional", cfg=[None, "on", "off", None, None], tag="conditional, more than 2^N listed, duplicates gated off")
+    add(1, [0, 1], exhaustive="conditional", cfg=[None, None], tag="conditional without any cfg")
+    add(8, [0, 255, 7], exhaustive="conditional", cfg=["on", "off", None], tag="conditional native storage")
+    add(3, [5], exhaustive="conditional", cfg=[None], tag="conditional single")
+    return Es
+
+
+def h_enum_from_raw(E: EnumDef):
+    from .engine import Harness
+    N = E.bits
+    b = [f"let x: u{N} = {H.uint_sym(N)};", f"let x128: u128 = {H.uint_u128(N, 'x')};"]
+    b.append(f"let res = {E.name}::new_with_raw_value(x);")
+    act = E.active
+    if not E.returns_result:
+        b.append(f"let e: {E.name} = res;")
+        b.append(f'assert!((e as u128) == x128, "VERIF exhaustive enum: wrong variant");')
+    else:
+        prim = E.prim()
+        b.append("match res {")
+        b.append(f'    Ok(e) => {{ let e: {E.name} = e; assert!({H.is_variant_expr(E, "x128")}, "VERIF Ok for a value that has no variant"); assert!((e as u128) == x128, "VERIF wrong variant"); }}')
+        b.append(f'    Err(p) => {{ let p: {prim} = p; assert!(!{H.is_variant_expr(E, "x128")}, "VERIF Err for a declared discriminant"); assert!((p as u128) == x128, "VERIF Err payload != raw value"); }}')
+        b.append("}")
+    b.append("vend!();")
+    return Harness("from_raw", "\n".join(b), "pass", "enum_from_raw", "C07", "", (f"{E.name}::new_with_raw_value", f"arbitrary_int::UInt::value"))
+
+
+def h_enum_to_raw(E: EnumDef):
+    from .engine import Harness
+    N = E.bits
+    b = H.enum_select(E, "v", "sel")
+    b.append(f"let rv: u{N} = v.raw_value();")
+    b.append(f"let rv128: u128 = {H.uint_u128(N, 'rv')};")
+    b.append('assert!(rv128 == (v as u128), "VERIF raw_value() != discriminant");')
+    # discriminant table written from the declaration
+    arms = " ".join(f"{i} => {d:#x}u128," for i, (_, d) in enumerate(E.active[:-1])) + f" _ => {E.active[-1][1]:#x}u128,"
+    b.append(f"let want: u128 = match sel {{ {arms} }};")
+    b.append('assert!(rv128 == want, "VERIF raw_value() != declared discriminant");')
+    if len(E.active) <= 64:
+        # for larger enums the round trip follows from from_raw (for all x) + raw_value == discriminant
+        b.append(f"let back = {E.name}::new_with_raw_value(rv);")
+        if E.returns_result:
+            b.append('match back { Ok(e) => assert!((e as u128) == want, "VERIF round trip variant"), Err(_) => assert!(false, "VERIF round trip gave Err") }')
+        else:
+            b.append('assert!((back as u128) == want, "VERIF round trip variant");')
+    b.append("vend!();")
+    return Harness("to_raw", "\n".join(b), "pass", "enum_to_raw_roundtrip", "C07", "", (f"{E.name}::raw_value", f"{E.name}::new_with_raw_value", "arbitrary_int::UInt::new"))
+
+
+def plan_c07(tier, seed):
+    Es = enum_corpus(tier, seed)
+    us = []
+    for i, e in enumerate(Es):
+        us.append(Unit(f"e{i:05d}", e.decl(), [h_enum_from_raw(e), h_enum_to_raw(e)], {"enum": e, "sig": e.sig(), "tag": e.tag, "valid": True}))
+    for k in (0, len(us) // 2, len(us) - 1):
+        e = us[k].meta["enum"]
+        h = h_enum_from_raw(e)
+        h.name, h.expect, h.family = "ctl_from_raw", "control", "control"
+        h.body = h.body.replace("let x128: u128 = ", "let x128: u128 = 1u128 ^ ", 1)
+        us[k].harnesses.append(h)
+    return Plan(us, title="bitenum conversions", chunk=260,
+                bounds={"inputs": "all 2^N raw values and all variants per enum (symbolic)", "enums": "N=1,2: every non-empty subset; N=3: %s; N in {4..8,9,15,16,17,31,32,33,63,64}: {0},{max},{0,max}, powers of two, dense prefix, random sets <= 64 variants, full / all-but-zero / all-but-top for N <= 8; conditional enums with cfg(all())/cfg(any()) variants" % ("40 subsets" if tier == "quick" else "all 255 subsets")},
+                assumptions=COMMON_ASSUME + ["variants are compared through `as u128` so no derive is required of the enum"])
+
+
+PLANS.update({"C06": plan_c06, "C07": plan_c07})
+
+
+# ------------------------------------------------------------------------------------------------
+# C08
+def custom_types_for(w, tier, rnd):
+    """[(FType, aux)] presentations of a w-bit custom-typed field"""
+    out = []
+    if w <= 64:
+        if w <= (8 if tier != "quick" else 4):
+            e = full_enum("EF", w)
+            out.append((FType("enum", w, e), e))
+        top = (1 << w) - 1
+        ds = sorted(set([0, top, 1 % (top + 1), (top // 2) + 1] + [rnd.getrandbits(w) for _ in range(3)]))
+        if len(ds) == (1 << w):
+            ds = ds[:-1] if len(ds) > 1 else ds
+        if w == 1:
+            ds = [1]
+        e = sparse_enum("EO", w, ds, [None, "false"][w % 2])
+        out.append((FType("optenum", w, e), e))
+    out.append((FType("custom", w, None, "Cust"), custom_decl("Cust", w)))
+    out.append((FType("nested", w, None, "Inner"), nested_decl("Inner", w)))
+    return out
+
+
+def placements(W, w):
+    P = [("plain lo=0", [(0, w)], None)]
+    if W - w > 0:
+        P.append(("plain at top", [(W - w, w)], None))
+    if W - w > 3:
+        P.append(("plain unaligned", [(3, w)], None))
+    if 2 * w <= W:
+        P.append(("array K=2 at top", [(W - 2 * w, w)], (2, w, False)))
+    if 2 * w + 1 <= W:
+        s = w + 1
+        K = min((W - w) // s + 1, 6)
+        P.append((f"array stride {s} K={K}", [(0, w)], (K, s, True)))
+    if w >= 2 and W - w >= 1:
+        h1 = w // 2
+        h2 = w - h1
+        P.append(("list swapped halves", [(W - h2, h2), (0, h1)], None))
+    if w >= 2 and 2 * w + 2 <= W:
+        h1 = w // 2
+        h2 = w - h1
+        P.append(("array of lists", [(h1 + 1, h2), (0, h1)], (2, w + 1, True)))
+    return P
+
+
+def c08_layouts(tier, seed):
+    rnd = random.Random(8)
+    Ls = []
+    widths = [1, 2, 3, 4, 5, 7, 8, 9, 12, 15, 16, 17, 31, 32, 33, 63, 64, 65, 100, 127, 128] if tier != "quick" else [1, 2, 3, 7, 8, 9, 15, 16, 32, 64, 128]
+    for w in widths:
+        bases = []
+        for W in NATIVE_BASES:
+            if W >= w:
+                bases.append(W)
+        bases = bases[:2] if tier == "quick" else bases
+        arb = [n for n in ([24, 65, 100, 127] if tier == "quick" else ALL_ARB[::9] + [127]) if n >= w]
+        bases += arb[:1] if tier == "quick" else arb[:4]
+        for W in bases:
+            for (ft, aux) in custom_types_for(w, tier, rnd):
+                for (ptag, rs, arr) in placements(W, w):
+                    if tier == "quick" and ptag in ("plain unaligned",) and ft.kind in ("custom",):
+                        continue
+                    import copy
+                    Ls.append(Layout(W, [Field("f", copy.deepcopy(ft), rs, arr, "rw")], aux=[copy.deepcopy(aux)], tag=f"{ft.kind} w={w} {ptag} on u{W}"))
+    return Ls
+
+
+def plan_c08(tier, seed):
+    Ls = c08_layouts(tier, seed)
+    us = units_from(Ls, lambda L: sum([field_harnesses(L, f, "C08", oob=False) for f in L.fields], []))
+    add_controls(us, "C08", kinds=("get", "set", "get"))
+    return Plan(us, title="enum / custom typed fields", chunk=220 if tier == "quick" else 600,
+                bounds={"inputs": "all raw values x all variants / inner values x all indices", "types": "exhaustive bitenum (w<=4 quick, <=8 thorough), Option<bitenum> (1..64 bits incl. native u8/u16/u32/u64 storage), hand-written custom type and nested bitfield (1..128 bits)",
+                        "placements": "plain lo=0 / top / unaligned, array default stride and with gaps, swapped two-range list, array of lists"},
+                assumptions=COMMON_ASSUME + ["the custom type is a trivial hand-written wrapper; the nested bitfield's own raw conversions are C06's subject; enum values are chosen by a symbolic selector over the declared variants and compared through `as u128`"])
+
+
+PLANS.update({"C08": plan_c08})
